@@ -60,6 +60,12 @@ func (f *eventHandler) call(args ...reflect.Value) (ret []reflect.Value, err err
 		}
 	}()
 
+	// The arguments are one value per parameter: for a variadic handler the last
+	// one is the slice of the variadic parameter, which only CallSlice accepts.
+	if f.rv.Type().IsVariadic() {
+		ret = f.rv.CallSlice(args)
+		return
+	}
 	ret = f.rv.Call(args)
 	return
 }
